@@ -229,8 +229,16 @@ def run(ctx):
     impl, model, d1 = ctx.differential("sf", cases, exe)
     nt = search_sf(ctx, cases, impl)
     sched, mcases, bad = sched_differential(ctx, exe, "C17")
+    # the dispatch machine inside the real sender: chunk frames that travel for generated resume reports, and the frame count FileEnd announces
+    from checks import resumegen
+    xfer = ctx.build_harness("xfer")
+    if xfer:
+        n_plan, d_plan, plan_stats = resumegen.run(ctx, xfer, "C17")
+    else:
+        ctx.oblige("harness.build:xfer", False, getattr(ctx, "harness_err", "")[-300:])
+        n_plan, d_plan, plan_stats = 0, 0, {}
     ctx.coverage.update({
-        "evaluations": len(cases) + len(sched),
+        "evaluations": len(cases) + len(sched) + n_plan, "resume_reports": n_plan,
         "distinct_nontrivial": nt + len(sched),
         "rule": "sf: EXHAUSTIVE op sequences over {take,finish,tryEnd} up to length 6|7 for totals 0-3 (= all interleavings of any number of workers), "
                 "plan/verifyBegin/verdict inserted at all ordered position triples (sampled 1/3) into worker runs for sampled bitmaps, forceFrom in {0,total,random}, "
